@@ -196,7 +196,7 @@ fn step_tss_desc(s: &Value, i: usize, st: &mut Stats) -> Option<Violation> {
     // the address of the static is a host address: it never appears in a violation text
     // the `&'static TaskStateSegment` of the safe constructor lives at a SEEDED address (a page pair
     // mapped for the duration of the step), so that the step behaves the same in every process
-    let at = s["at"].as_u64().unwrap_or((200u64 << 39) + 0x1000);
+    let at = s["at"].as_u64().unwrap_or((200u64 << 39) + 0x1000) & !(core::mem::align_of::<TaskStateSegment>() as u64 - 1);
     let mut mapped_at = 0u64;
     let stat: &'static TaskStateSegment = if is_static {
         unsafe {
